@@ -662,10 +662,134 @@ func (g *gen) stmtRaw(db *MDB, t *MTable) Stmt {
 	}
 	for {
 		q := tmpl[g.r.Intn(len(tmpl))]()
+		if g.r.Chance(0.45) {
+			q = g.composeSelect(db, t, other)
+		}
 		if g.pf.RawMutations || isSelectText(q) {
 			return Stmt{Kind: KRawSQL, SQL: q}
 		}
 	}
+}
+
+// composeSelect builds a SELECT clause by clause (select list, FROM with
+// joins, WHERE, GROUP BY, ORDER BY, LIMIT/OFFSET), so that clause combinations
+// no fixed template foresees are reached too. The statement may be ill-typed
+// or refer to missing columns: it must return a result or an error.
+func (g *gen) composeSelect(db *MDB, t, other *MTable) string {
+	r := g.r
+	type src struct {
+		tbl   *MTable
+		alias string
+	}
+	srcs := []src{{t, ""}}
+	from := t.Name
+	njoin := 0
+	if r.Chance(0.35) {
+		njoin = 1
+		if r.Chance(0.25) {
+			njoin = 2
+		}
+		srcs[0].alias = "a"
+		from = t.Name + " a"
+		for j := 0; j < njoin; j++ {
+			jt := other
+			if r.Chance(0.3) {
+				jt = t
+			}
+			al := string(rune('b' + j))
+			kind := []string{"JOIN", "INNER JOIN", "LEFT JOIN", "RIGHT JOIN"}[r.Intn(4)]
+			lc := srcs[r.Intn(len(srcs))]
+			on := fmt.Sprintf("%s.%s = %s.%s", lc.alias, lc.tbl.Cols[r.Intn(len(lc.tbl.Cols))].Name, al, jt.Cols[r.Intn(len(jt.Cols))].Name)
+			if r.Chance(0.1) {
+				on = fmt.Sprintf("%s.k %s %d", al, []string{"<", ">=", "!="}[r.Intn(3)], r.Intn(5))
+			}
+			from += fmt.Sprintf(" %s %s %s ON %s", kind, jt.Name, al, on)
+			srcs = append(srcs, src{jt, al})
+		}
+	}
+	colRef := func() string {
+		s := srcs[r.Intn(len(srcs))]
+		c := s.tbl.Cols[r.Intn(len(s.tbl.Cols))].Name
+		if s.alias != "" && r.Chance(0.85) {
+			return s.alias + "." + c
+		}
+		return c
+	}
+	lit := func() string { return []string{"0", "1", "3", "'a'", "''", "TRUE", "FALSE", "100000"}[r.Intn(8)] }
+	ops := []string{"=", "!=", "<", "<=", ">", ">="}
+	// select list
+	var list []string
+	var plain []string
+	agg := r.Chance(0.4)
+	switch {
+	case !agg && r.Chance(0.4):
+		list = []string{"*"}
+	default:
+		n := r.Range(1, 3)
+		for i := 0; i < n; i++ {
+			if agg && (i > 0 || r.Chance(0.5)) {
+				switch r.Intn(3) {
+				case 0:
+					list = append(list, "count(*)")
+				case 1:
+					list = append(list, "count("+colRef()+")")
+				default:
+					list = append(list, "avg("+colRef()+")")
+				}
+			} else {
+				c := colRef()
+				plain = append(plain, c)
+				if r.Chance(0.2) {
+					c += " AS z" + fmt.Sprint(i)
+				}
+				list = append(list, c)
+			}
+		}
+	}
+	q := "SELECT " + strings.Join(list, ", ") + " FROM " + from
+	if r.Chance(0.45) {
+		cond := fmt.Sprintf("%s %s %s", colRef(), ops[r.Intn(6)], lit())
+		if r.Chance(0.3) {
+			cond += []string{" AND ", " OR "}[r.Intn(2)] + fmt.Sprintf("%s %s %s", colRef(), ops[r.Intn(6)], []string{lit(), colRef()}[r.Intn(2)])
+		}
+		q += " WHERE " + cond
+	}
+	if agg && len(plain) > 0 && r.Chance(0.85) {
+		gb := plain
+		if r.Chance(0.15) {
+			gb = []string{colRef()}
+		}
+		for i := range gb {
+			if j := strings.LastIndex(gb[i], "."); j >= 0 && r.Chance(0.3) {
+				gb[i] = gb[i][j+1:]
+			}
+		}
+		q += " GROUP BY " + strings.Join(gb, ", ")
+	}
+	if r.Chance(0.4) {
+		ob := colRef()
+		if len(list) > 0 && list[0] != "*" && r.Chance(0.6) {
+			ob = list[r.Intn(len(list))]
+			if j := strings.Index(ob, " AS "); j >= 0 {
+				ob = ob[j+4:]
+			}
+		}
+		if !strings.ContainsAny(ob, "(*") {
+			q += " ORDER BY " + ob + []string{"", " ASC", " DESC"}[r.Intn(3)]
+			if r.Chance(0.25) {
+				q += ", " + colRef()
+			}
+		}
+	}
+	if r.Chance(0.35) {
+		if r.Chance(0.6) {
+			q += fmt.Sprintf(" LIMIT %d", r.Intn(6))
+		}
+		if r.Chance(0.7) {
+			q += fmt.Sprintf(" OFFSET %d", r.Intn(8))
+		}
+	}
+	return q
 }
 
 // genStmts appends n statements generated against g.m.
